@@ -97,6 +97,15 @@ func normErr(s string) string {
 
 var reAnnexBDup = regexp.MustCompile(`let (\w+)\s*=\s*function[\s\S]*?(?:,|\blet)\s*(\w+)\s*=\s*function`)
 
+var reParenDirective = regexp.MustCompile(`\(\s*(?:/\*[^*]*\*/\s*)*(['"])use strict(['"])\s*(?:/\*[^*]*\*/\s*)*\)`)
+var reYieldNewlineRegexp = regexp.MustCompile(`\byield[ \t]*(?:\r\n|\r|\n)\s*/`)
+
+// c13NoFakeDirective respells the string statements that look like "use strict" without being the directive
+func c13NoFakeDirective(src string) string {
+	s := strings.NewReplacer("use\\x20strict", "use_strict", "use strict\\\n", "use_strict").Replace(src)
+	return reParenDirective.ReplaceAllString(s, "(${1}use_strict${2})")
+}
+
 var reBlockFunction = regexp.MustCompile(`\{\s*(?:async\s+)?function\b`)
 
 func c13ValidAs(pool *Pool, code, goal string) bool {
@@ -346,8 +355,8 @@ func c13One(r *Run, pool *Pool, c c13Case, cfgSeed uint64, st *c13Stats) {
 				// a string statement that spells "use strict" only through an escape or a line continuation is not a
 				// Use Strict Directive; esbuild treats it as one (cause isolated by spelling the string differently)
 				// (likewise a parenthesized string statement)
-				if strings.Contains(c.Src, "use\\x20strict") || strings.Contains(c.Src, "use strict\\\n") || strings.Contains(c.Src, "('use strict')") {
-					s2 := strings.NewReplacer("use\\x20strict", "use_strict", "use strict\\\n", "use_strict", "('use strict')", "('use_strict')").Replace(c.Src)
+				if c13NoFakeDirective(c.Src) != c.Src {
+					s2 := c13NoFakeDirective(c.Src)
 					if r2, _ := transformSafe(s2, api.TransformOptions{Loader: api.LoaderJS}); len(r2.Errors) == 0 {
 						sig = "reject:non-directive-use-strict-string"
 					}
@@ -357,6 +366,14 @@ func c13One(r *Run, pool *Pool, c c13Case, cfgSeed uint64, st *c13Stats) {
 					r2, _ := transformSafe(s2, api.TransformOptions{Loader: api.LoaderJS})
 					if len(r2.Errors) == 0 {
 						sig = "reject:asi-after-postfix-update-before-paren"
+					}
+				}
+				if reYieldNewlineRegexp.MatchString(c.Src) {
+					// `yield` + line break + a regular expression: the operand-less yield ends at the line break and the regexp starts a
+					// new statement; esbuild reads a division
+					s2 := reYieldNewlineRegexp.ReplaceAllString(c.Src, "yield;\n/")
+					if r2, _ := transformSafe(s2, api.TransformOptions{Loader: api.LoaderJS}); len(r2.Errors) == 0 {
+						sig = "reject:yield-line-break-regexp"
 					}
 				}
 				if reLetArrow.MatchString(c.Src) {
@@ -383,7 +400,7 @@ func c13One(r *Run, pool *Pool, c c13Case, cfgSeed uint64, st *c13Stats) {
 				if goal == "script-only" {
 					apply("legacy-decimal-with-fraction", reLegacyDecimalFraction.ReplaceAllString(base, "${1}9${2}"))
 				}
-				apply("non-directive-use-strict-string", strings.NewReplacer("use\\x20strict", "use_strict", "use strict\\\n", "use_strict", "('use strict')", "('use_strict')").Replace(base))
+				apply("non-directive-use-strict-string", c13NoFakeDirective(base))
 				apply("asi-after-postfix-update-before-paren", reASIPostfix.ReplaceAllString(base, "${1};\n${2}"))
 				apply("let-arrow-parameter-at-statement-start", reLetArrow.ReplaceAllString(base, "${1}(${2})=>"))
 				accepted := func(s2 string) bool {
